@@ -774,6 +774,48 @@ func vRateFor(deposit int64, blocks int) int64 {
 
 func vScenarios() []vScenario {
 	return []vScenario{
+		// the deposit lasts for exactly k blocks: the account is acted on one
+		// block before it is exhausted, in the block in which its balance
+		// reaches zero (not overdrawn), and one block after
+		{"exact-exhaustion", func(g *vGen) {
+			t, t2, p := g.h.actor("tenant", g.r.Intn(3)), g.h.actor("tenant", g.r.Intn(3)), g.h.actor("provider", g.r.Intn(3))
+			dep := g.minDep()
+			var ks []int
+			for _, k := range []int{4, 5, 8, 10, 16, 20} {
+				if dep%int64(k) == 0 && dep/int64(k) >= 1 && dep/int64(k) <= 10000000 {
+					ks = append(ks, k)
+				}
+			}
+			if len(ks) == 0 {
+				return
+			}
+			// somebody else's money is in the module too
+			g.tplDeploy(1, t2, dep*2, []vUnitSpec{{g.unitPrice(), 1}})
+			for _, delta := range g.r.Perm(3) {
+				k := ks[g.r.Intn(len(ks))]
+				rate := dep / int64(k)
+				id, ok := g.tplDeploy(1, t, dep, []vUnitSpec{{rate, 1}})
+				if !ok {
+					return
+				}
+				bid, _ := g.tplBid(g.r.Intn(2), p, vOrderID(id, 1, 1), rate)
+				if o := g.h.DoNote("tpl/create-lease", g.r.Intn(2), t, &mtypes.MsgCreateLease{BidID: bid}); !o.OK {
+					continue
+				}
+				gap := k - 1 + delta // k-1, k, k+1 blocks after the lease (and the last settlement)
+				switch g.r.Intn(4) {
+				case 0:
+					g.h.DoNote(fmt.Sprintf("tpl/close-deployment-at-exhaustion%+d", delta-1), gap, t, &dtypes.MsgCloseDeployment{ID: id})
+				case 1:
+					g.h.DoNote(fmt.Sprintf("tpl/close-lease-at-exhaustion%+d", delta-1), gap, t, &mtypes.MsgCloseLease{LeaseID: bid.LeaseID()})
+				case 2:
+					g.h.DoNote(fmt.Sprintf("tpl/withdraw-at-exhaustion%+d", delta-1), gap, p, &mtypes.MsgWithdrawLease{LeaseID: bid.LeaseID()})
+				case 3:
+					g.h.DoNote(fmt.Sprintf("tpl/close-bid-at-exhaustion%+d", delta-1), gap, p, &mtypes.MsgCloseBid{BidID: bid})
+				}
+				g.h.DoNote("tpl/close-deployment-after", g.r.Intn(3), t, &dtypes.MsgCloseDeployment{ID: id})
+			}
+		}},
 		// a transaction that writes something, and then fails as a whole because
 		// of a later message, leaves nothing behind - also not in memory; the
 		// next transaction reads what the reverted one would have written
@@ -791,8 +833,11 @@ func vScenarios() []vScenario {
 			req := types.PlacementRequirements{Attributes: types.Attributes{{Key: "region", Value: "a"}, {Key: "tier", Value: "a"}}}
 			if o := g.h.DoNote("tpl/create-deployment-requiring-tier", 1, t, &dtypes.MsgCreateDeployment{ID: idA,
 				Groups: []dtypes.GroupSpec{vGroupSpec("g1", req, vUnitSpec{price, 1})}, Version: vVersion(g.r), Deposit: vCoin(g.minDep())}); o.OK {
-				g.h.DoNote("tpl/reverted-provider-update+failing-bid", g.r.Intn(2), p,
-					&ptypes.MsgUpdateProvider{Owner: p.Bech, HostURI: "https://" + p.Name + ".example.com", Attributes: vFullAttrs()}, failingBid)
+				// (the record is updated, read by a bid that succeeds, and the tx then
+				// fails on its last message: nothing of it may remain)
+				okBid := &mtypes.MsgCreateBid{Order: vOrderID(idA, 1, 1), Provider: p.Bech, Price: vCoin(price), Deposit: vCoin(g.h.c.profile.BidMinDeposit)}
+				g.h.DoNote("tpl/reverted-provider-update+bid+failing-bid", g.r.Intn(2), p,
+					&ptypes.MsgUpdateProvider{Owner: p.Bech, HostURI: "https://" + p.Name + ".example.com", Attributes: vFullAttrs()}, okBid, failingBid)
 				g.h.DoNote("tpl/bid-needing-the-reverted-attribute", g.r.Intn(2), p,
 					&mtypes.MsgCreateBid{Order: vOrderID(idA, 1, 1), Provider: p.Bech, Price: vCoin(price), Deposit: vCoin(g.h.c.profile.BidMinDeposit)})
 			}
